@@ -252,6 +252,8 @@ impl Property for C01 {
             ("f2-ff-prefix".into(), vec![cfg(false), p(0, 0, &[1, 255], None, 9), p(1, 0, &[2], Some(0), 5), p(1, 0, &[1, 255, 3], Some(1), 5)]),
             ("empty-vs-many".into(), vec![cfg(false), p(1, 0, b"a", Some(0), 5), p(1, 1, b"b", Some(1), 5), p(1, 2, b"c", Some(2), 9), p(1, 0, b"", Some(0), 4)]),
             ("equal-sets".into(), vec![cfg(false), p(2, 0, b"a", Some(0), 5), p(2, 1, b"b", Some(1), 5), p(2, 1, b"c", None, 5)]),
+            // keys beyond 4096 bytes reconcile like any other
+            ("keys-beyond-4096-bytes".into(), vec![cfg(false), p(0, 0, &crate::c02::very_long_key(b"a"), Some(0), 5), p(0, 1, b"b", Some(1), 5), p(1, 0, &crate::c02::very_long_key(b"ab"), Some(2), 9), p(1, 2, b"c", Some(0), 5)]),
         ]
     }
     fn generate(&self, rng: &mut Rng, _i: usize, thorough: bool) -> Vec<Op> {
@@ -283,9 +285,14 @@ impl Property for C01 {
         }
         if rng.chance(1, 12) {
             // long keys: every key behind a common 255-byte prefix
+            // (a quarter of them beyond 4096 bytes; at most 6 entries then: every insert looks up every prefix)
+            let very = thorough && rng.chance(1, 8);
+            if very {
+                puts.truncate(4);
+            }
             for o in puts.iter_mut() {
                 if let Op::Put { key, .. } = o {
-                    *key = crate::c02::long_key(key);
+                    *key = if very { crate::c02::very_long_key(key) } else { crate::c02::long_key(key) };
                 }
             }
         }
